@@ -23,7 +23,7 @@ from pymbolic.mapper.flop_counter import CSEAwareFlopCounter, FlopCounter
 from pbt import envs, strategies as S, walk
 from pbt.refsem import exc_site
 from pbt.runner import Result
-from pbt.spec import build, build_shared
+from pbt.spec import build, build_shared, twin_first, twin_how
 
 PROP = "C09"
 LEVEL = "exploration"
@@ -111,6 +111,10 @@ def _nested_composites(e):
 def check_deps(spec):
     res = Result()
     e = build(spec)
+    if twin_first(spec, twin_how(spec),
+                  lambda t: DependencyMapper(composite_leaves=True)(t),
+                  lambda t: CachedDependencyMapper(include_cses=True)(t)):
+        res.label("twin-first")
     for fl in FLAGS:
         eff = _effective(fl)
         want = _keyset(ref_deps(e, eff))
@@ -249,6 +253,9 @@ def check_count(spec):
 def check_flops(spec):
     res = Result()
     e = build(spec)
+    if twin_first(spec, twin_how(spec), lambda t: FlopCounter()(t),
+                  lambda t: CSEAwareFlopCounter()(t), get_num_nodes):
+        res.label("twin-first")
     for name, fn, want in (
             ("FlopCounter", lambda: FlopCounter()(e), ref_flops(e)),
             ("CSEAwareFlopCounter", lambda: CSEAwareFlopCounter()(e), ref_flops(e, set()))):
